@@ -54,12 +54,12 @@ FloorDiv(n, d) == n \div d          \* TLA+ \div floors for d > 0
 
 -----------------------------------------------------------------------------
 (* Strings: compared by code point over a fixed alphabet; anything else is out of domain *)
-Alphabet == " -.0123456789:ABCDEFabcdefxyz"       \* in increasing code point order
-UpperOf  == " -.0123456789:ABCDEFABCDEFXYZ"
-LowerOf  == " -.0123456789:abcdefabcdefxyz"
+Alphabet == " !*-.0123456789:ABCDEFabcdefxyz"       \* in increasing code point order
+UpperOf  == " !*-.0123456789:ABCDEFABCDEFXYZ"
+LowerOf  == " !*-.0123456789:abcdefabcdefxyz"
 Ch(s, i) == SubSeq(s, i, i)
 InAlphabet(c) == \E i \in 1..Len(Alphabet) : Ch(Alphabet, i) = c
-Code(c) == CHOOSE i \in 1..Len(Alphabet) : Ch(Alphabet, i) = c
+Code(c) == IF InAlphabet(c) THEN CHOOSE i \in 1..Len(Alphabet) : Ch(Alphabet, i) = c ELSE 0   \* 0: out of domain, see StrOK
 StrOK(s) == \A i \in 1..Len(s) : InAlphabet(Ch(s, i))
 RECURSIVE StrLessFrom(_, _, _)
 StrLessFrom(a, b, i) ==
@@ -76,7 +76,7 @@ Lower(s) == MapStr(s, LowerOf, 1)
 Contains(hay, needle) ==
     \E i \in 1..(Len(hay) - Len(needle) + 1) : SubSeq(hay, i, i + Len(needle) - 1) = needle
 \* a regular expression that is a plain literal: letters, digits, blank, ':' only
-LiteralPattern(p) == \A i \in 1..Len(p) : Ch(p, i) \notin {".", "-"} /\ InAlphabet(Ch(p, i))
+LiteralPattern(p) == \A i \in 1..Len(p) : Ch(p, i) \notin {".", "-", "*", "!"} /\ InAlphabet(Ch(p, i))
 IsDigit(c) == c \in {"0", "1", "2", "3", "4", "5", "6", "7", "8", "9"}
 DigitVal(c) == Code(c) - Code("0")
 HasDigit(s) == \E i \in 1..Len(s) : IsDigit(Ch(s, i))
